@@ -117,6 +117,13 @@ func randAlt(v int64) float64 {
 	}
 }
 
+func boolToInt64(b bool) int64 {
+	if b {
+		return 1
+	}
+	return 0
+}
+
 func atof(s string) float64 { return fromBits(s) }
 
 func init() {
@@ -303,6 +310,22 @@ func init() {
 				alts := make([]string, na)
 				for j := range alts {
 					alts[j] = strings.Split(mkpt(h, v), ":")[2]
+				}
+				if rng.Intn(4) == 0 && h >= 1 {
+					// two positions that share the latitude and lie 5e-11 degrees apart on either side of a tile edge: nearly the same
+					// place, different tiles (a cache of tile IDs must key on the coordinates exactly)
+					kk := 1 + rng.Int63n(pow2(h)-1+boolToInt64(h == 0))
+					edge := float64(kk)*360/math.Pow(2, float64(h)) - 180
+					base := strings.Split(mkpt(h, v), ":")
+					w := append([]string(nil), base...)
+					e := append([]string(nil), base...)
+					w[0], e[0] = fbits(edge-5e-11), fbits(edge)
+					if pw, err := object.NewPoint(edge-5e-11, atof(base[1]), atof(base[2])); err == nil && edge-5e-11 > -180 {
+						u := fbits(oracleU(pw.Lat())) // (the base position may have been an invalid one: its oracle value is recomputed)
+						w[3], e[3] = u, u
+						pos = [][]string{w, e}
+						np = 2
+					}
 				}
 				k = 2 + rng.Intn(7)
 				for j := 0; j < k; j++ {
